@@ -250,6 +250,14 @@ def run_check(pid, tier, only=None, keep=False, parallel=None):
             os.makedirs(gdir)
             gen_info = spec["gen"](gdir, tier, seed, scratch) or {}
             gen_dirs.append(gdir)
+        smt_proc = None
+        smt_out = os.path.join(scratch, "smt_results.json")
+        if spec.get("smt"):
+            smt_log = open(os.path.join(scratch, "smt.log"), "w")
+            smt_dir = os.path.join(scratch, "smt")
+            os.makedirs(smt_dir)
+            smt_proc = subprocess.Popen(["python3-vt", os.path.join(VERIF, "lib", "smtcheck.py"), spec["smt"], tier, str(seed),
+                                         smt_dir, smt_out], stdout=smt_log, stderr=subprocess.STDOUT, cwd=VERIF)
         allh = discover(gen_dirs)
         sel = []
         for h in allh:
@@ -263,7 +271,7 @@ def run_check(pid, tier, only=None, keep=False, parallel=None):
             if kf and kf not in known:
                 continue  # witness of a finding that is not (or no longer) listed
             sel.append(h)
-        if not sel:
+        if not sel and not smt_proc:
             log("no harness selected for", pid, tier)
             return 2
         if spec.get("override_builds"):
@@ -322,24 +330,28 @@ def run_check(pid, tier, only=None, keep=False, parallel=None):
             jobs = []
             for h in hb:
                 mod = module_of(h["file"])
-                full = "%s::verif_h::%s" % (mod, h["fn"]) if mod != "lib" else "verif_top::%s" % h["fn"]
+                sub = (h["sub"] + "::") if h.get("sub") else ""
+                full = "%s::verif_h::%s%s" % (mod, sub, h["fn"]) if mod != "lib" else "verif_top::%s%s" % (sub, h["fn"])
                 h = dict(h)
                 h["full"] = full
                 h["build"] = b
                 jobs.append(dict(harness=full, timeout=h["timeout"], mem_gb=h["mem"], tag=b + "__", h=h))
             # longest first
             jobs.sort(key=lambda j: -j["timeout"])
-            res = kani.run_many(mdir, tdir, jobs, ctx["logdir"], parallel=parallel, features=bcfg["features"],
-                                no_default=bcfg["no_default"], stubbing=stub)
-            for r in res:
+            def show(r, b=b):
                 h = r["job"]["h"]
-                r["h"] = h
                 log("[%s] %-10s %-8s %6.1fs checks=%d/%d covers=%d/%d  %s" % (
                     pid, b, r["class"], r["wall_s"], r["checks_total"] - r["checks_failed"], r["checks_total"],
                     r["covers_sat"], r["covers_total"], h["fn"]))
+
+            res = kani.run_many(mdir, tdir, jobs, ctx["logdir"], parallel=parallel, on_result=show,
+                                features=bcfg["features"], no_default=bcfg["no_default"], stubbing=stub)
+            for r in res:
+                r["h"] = r["job"]["h"]
                 results.append(r)
         # ---------------- verdicts ----------------
         violations = []
+        smt_violations = []
         inconclusive = []
         known_lines = []
         for r in results:
@@ -380,31 +392,71 @@ def run_check(pid, tier, only=None, keep=False, parallel=None):
                         h["fn"], " [only memory-safety/UB checks failed: triage by reading]" if only_ub else "", rpath))
             else:
                 inconclusive.append("%s: %s (log %s)" % (h["fn"], r["class"], r["log"]))
+        smt_info = None
+        if smt_proc:
+            try:
+                smt_proc.wait(timeout=int(os.environ.get("VERIF_SMT_TIMEOUT", "5400")))
+            except subprocess.TimeoutExpired:
+                smt_proc.kill()
+                inconclusive.append("SMT exploration timed out")
+            for ln in open(os.path.join(scratch, "smt.log"), errors="replace"):
+                if ln.startswith("[smt") and " pass " not in ln:
+                    log(ln.rstrip())
+            if os.path.exists(smt_out):
+                smt_info = json.load(open(smt_out))
+                for r in smt_info["results"]:
+                    key = "smt:%s:/%s/%s" % (r["mode"], r["src"], r["flags"])
+                    if r["result"] == "pass":
+                        continue
+                    kf = [k for k, v in known.items() if v["prop"] == pid and v.get("what", "").find(key) >= 0]
+                    if r["result"] == "fail":
+                        if kf:
+                            known_lines.append("KNOWN-FINDING: property=%s %s" % (pid, known[kf[0]]["what"]))
+                            r["known_finding"] = kf[0]
+                            continue
+                        os.makedirs(os.path.join(VERIF, "replays"), exist_ok=True)
+                        rpath = os.path.join(VERIF, "replays", "%s-smt-%s-%s.json" % (pid, r["mode"], r["case"]))
+                        with open(rpath, "w") as f:
+                            json.dump(dict(kind="smt", property=pid, mode=r["mode"], case=r["case"], pattern=r["src"],
+                                           flags=r["flags"], haystack=r["cex"]["text"], start=r["cex"]["start"],
+                                           model_a=r["cex"]["a"], model_b=r["cex"]["b"], native=r.get("native"),
+                                           repo_digest=mirror.repo_src_digest()), f, indent=1, default=str)
+                        smt_violations.append((r, rpath))
+                    else:
+                        inconclusive.append("smt %s %s /%s/%s: %s %s" % (r["mode"], r["case"], r["src"], r["flags"],
+                                                                         r["result"], r.get("detail", "")))
+            elif not any("SMT" in x for x in inconclusive):
+                inconclusive.append("SMT exploration produced no result file (see smt.log in the scratch dir)")
         for ln in known_lines:
             log(ln)
+        for r, rpath in smt_violations:
+            log("VIOLATION property=%s replay=%s smt-mode=%s pattern=/%s/%s haystack=%r start=%d :: %s" % (
+                pid, rpath, r["mode"], r["src"], r["flags"], r["cex"]["text"], r["cex"]["start"], r.get("native", "")))
         for h, rpath, r in violations:
             descs = "; ".join(c["desc"] for c in r["failed_checks"][:3])
             log("VIOLATION property=%s replay=%s harness=%s :: %s" % (pid, rpath, h["fn"], descs))
         for s in inconclusive:
             log("INCONCLUSIVE:", s)
         wall = time.time() - t_start
-        write_evidence(pid, tier, seed, spec, results, build_info, gen_info, wall, inconclusive, len(violations),
-                       known_lines)
+        write_evidence(pid, tier, seed, spec, results, build_info, gen_info, wall, inconclusive,
+                       len(violations) + len(smt_violations), known_lines, smt_info)
         if keep or ((violations or inconclusive) and os.environ.get("VERIF_KEEP_ON_FAIL")):
             log("scratch kept at", scratch)
             keep = True
-        if violations:
+        if violations or smt_violations:
             return 1
         if inconclusive:
             return 2
-        log("[%s] OK: %d harnesses, %.0fs" % (pid, len(results), wall))
+        log("[%s] OK: %d harnesses%s, %.0fs" % (pid, len(results), (", %d SMT explorations" % len(smt_info["results"]))
+                                                 if smt_info else "", wall))
         return 0
     finally:
         if not keep:
             shutil.rmtree(scratch, ignore_errors=True)
 
 
-def write_evidence(pid, tier, seed, spec, results, build_info, gen_info, wall, inconclusive, violations, known_lines=()):
+def write_evidence(pid, tier, seed, spec, results, build_info, gen_info, wall, inconclusive, violations, known_lines=(),
+                   smt_info=None):
     hs = []
     evaluations = 0
     nontrivial = set()
@@ -427,6 +479,23 @@ def write_evidence(pid, tier, seed, spec, results, build_info, gen_info, wall, i
                        vccs=r.get("vccs"), vccs_after_simplification=r.get("vccs_remaining"), wall_s=r["wall_s"],
                        functions=h.get("funcs", ""), assumes=h.get("assumes", ""), stubs=h.get("stubs", ""),
                        known_finding=r.get("known_finding")))
+    smt_summary = None
+    if smt_info:
+        rs = smt_info["results"]
+        smt_summary = dict(
+            explorations=len(rs), passed=sum(1 for r in rs if r["result"] == "pass"),
+            leaves=sum(r.get("leaves", 0) for r in rs), solver_queries=sum(r.get("queries", 0) for r in rs),
+            solver_seconds=round(sum(r.get("solver_s", 0) for r in rs), 2), wall_s=smt_info.get("wall_s"),
+            engine="z3 %s via lib/symvm.py: path enumeration over bytecode programs dumped from the real "
+                   "parser/optimizer/emitter; byte values symbolic, haystack shape (length, UTF-8 widths) enumerated" % "5.1.0",
+            cases=[dict(mode=r["mode"], pattern="/%s/%s" % (r["src"], r["flags"]), result=r["result"], leaves=r.get("leaves"),
+                        queries=r.get("queries"), shapes=r.get("shapes"), outcomes=r.get("outcomes"),
+                        detail=r.get("detail") or r.get("native") or "") for r in rs][:400])
+        evaluations += smt_summary["leaves"]
+        for r in rs:
+            if r["result"] == "pass" and len(r.get("outcomes", [])) == 2:
+                nontrivial.add(("smt", r["mode"] + ":" + r["case"]))
+        solver += smt_summary["solver_seconds"]
     ev = dict(
         property_id=pid,
         tier=tier,
@@ -437,8 +506,11 @@ def write_evidence(pid, tier, seed, spec, results, build_info, gen_info, wall, i
             distinct_nontrivial=len(nontrivial),
             rule="evaluations = CBMC verification conditions (Kani 'checks': user assertions, unwinding assertions, "
                  "pointer/arith/bounds checks) discharged by the SAT solver over all inputs within each harness's stated "
-                 "bound; distinct_nontrivial = harness x build pairs that verified AND whose kani::cover! reachability "
-                 "witnesses were all satisfied (i.e. non-vacuous).",
+                 "bound, plus (where the check has an SMT part) the leaves of the exhaustive path enumeration, each leaf's "
+                 "path condition being a solver-checked set of haystacks on which the compared results are concrete; "
+                 "distinct_nontrivial = harness x build pairs that verified AND whose kani::cover! reachability "
+                 "witnesses were all satisfied, plus SMT explorations that passed and contain both matching and "
+                 "non-matching leaves (i.e. non-vacuous).",
             samples=hs[:400],
             exhaustive=False,
             engine="Kani 0.68.0 -> CBMC 6.11.0 -> CaDiCaL; encoding regenerated from /repo working tree (digest %s)"
@@ -453,6 +525,7 @@ def write_evidence(pid, tier, seed, spec, results, build_info, gen_info, wall, i
             inconclusive=list(inconclusive),
             known_findings=list(known_lines),
             outside_claim=spec.get("outside", ""),
+            smt=smt_summary,
         ),
         assumptions=spec.get("assumptions", []),
         wall_s=round(wall, 1),
@@ -465,6 +538,8 @@ def write_evidence(pid, tier, seed, spec, results, build_info, gen_info, wall, i
 
 def do_replay(path):
     case = json.load(open(path))
+    if case.get("kind") == "smt":
+        return subprocess.call(["python3-vt", os.path.join(VERIF, "lib", "smtcheck.py"), "--replay", path], cwd=VERIF)
     scratch = tempfile.mkdtemp(prefix="verif_replay_")
     try:
         hfile = case["harness_file"]
